@@ -60,7 +60,7 @@ var scCacheControls = []string{"max-age=60", "max-age=60", "max-age=5", "s-maxag
 var scExtraHeaders = [][2]string{
 	{"Content-Type", "text/plain"}, {"Content-Type", "application/octet-stream"}, {"X-A", "1"}, {"X-A", "a, b; c=\"d\""}, {"Set-Cookie", "a=1"},
 	{"Set-Cookie", "b=2"}, {"Content-Language", "fi"}, {"X-Brackets", "[x]"}, {"Vary", "Accept-Encoding"}, {"Last-Modified", "Mon, 02 Jan 2006 15:04:05 GMT"},
-	{"X-Pipe", "a|b"}, {"Link", "</x>; rel=\"preload\""},
+	{"X-Pipe", "a|b"}, {"Link", "</x>; rel=\"preload\""}, {"Content-Encoding", "gzip"}, {"Content-Encoding", "br"},
 }
 
 func syscStream(g *hx.Gen, id int) hx.Case {
@@ -214,6 +214,11 @@ func syscGen(g *hx.Gen, id int) (int, []scOp) {
 		version++
 		o := scOp{kind: 'O', path: p, status: 200, rerr: -1, chunk: g.Chance(40), cond: true, cl0: g.Chance(60),
 			hdr: [][2]string{{"Cache-Control", "max-age=5"}, {"Content-Type", "text/plain"}, {"ETag", "\"e" + hx.I(version) + "\""}}}
+		if g.Chance(30) {
+			// an entry stored in an encoded form (no recompression on this rule: the label and the bytes pass through); its length and
+			// its body survive the 304 like any other entry's (seeded change C06-m7)
+			o.hdr = append(o.hdr, [2]string{"Content-Encoding", g.Pick([]string{"gzip", "br"})})
+		}
 		if g.Chance(30) {
 			// the 304 forbids what the 200 allowed: the entry must not be served from the cache afterwards
 			o.cc304 = g.Pick([]string{"no-store", "private", "no-cache", "max-age=0", "s-maxage=0"})
